@@ -33,6 +33,9 @@ CASES_Q = [
     ('quso', 'QUSO', [('a', 'b')], 1, 'linear1', None, 1, 'all-cancelled'),
     ('quso', 'PCSO', [('a',), ('a', 'b')], 1, 'T0', 'mixed', 1, None),
     ('quso', 'QUSOMatrix', [(0,), (1, 2)], 1, 'T0', 'mixed', 1, None),                      # field on a spin without couplings
+    ('quso', 'QUSOMatrix', [(1, 2), (0, 1), (0, 2)], 1, 'T0', 'mixed', 1, None),            # couplings inserted in non-lexicographic order
+    ('quso', 'QUSO', [('b', 'c'), ('a', 'b'), ('a',)], 1, 'T1', 'up', 1, None),
+    ('qubo', 'QUBOMatrix', [(1, 2), (0, 1), (2,)], 1, 'T0', 'down', 1, None),
     ('quso', 'QUSO', [('a',), ('b',)], 1, 'T1', None, 1, None),                             # purely linear
     ('qubo', 'QUBO', [('a',), ('b', 'c')], 1, 'T0', 'down', 1, None),
     ('puso', 'PUSOMatrix', [(0, 1, 2), (1,), ()], 1, 'T0', 'mixed', 1, None),
